@@ -62,3 +62,10 @@ func (node *Node) VerifC28ValidateConsensusTransactionReferences(s *common.Snaps
 func (node *Node) VerifC16StopLoops() {
 	close(node.done)
 }
+
+// VerifC28ReloadConsensusState is the step the finalization path and SetupNode
+// run after a snapshot is written: it decides whether the transaction is a
+// consensus operation and records it (WriteConsensusSnapshotWithHack).
+func (node *Node) VerifC28ReloadConsensusState(s *common.Snapshot, tx *common.VersionedTransaction) error {
+	return node.reloadConsensusState(s, tx)
+}
